@@ -81,6 +81,12 @@ def clear_frontend_caches(clear_template_cache=True, clear_ir_cache=True):
     if clear_ir_cache:
         OperatorTemplate.cache.clear()
         clear_ir_caches()
+        # the remaining process-global caches of the intermediate representation
+        from pyrates.ir.circuit import in_edge_indices, in_edge_vars
+        from pyrates.frontend.template.circuit import input_labels
+        in_edge_indices.clear()
+        in_edge_vars.clear()
+        input_labels.clear()
 
 
 ########################
